@@ -339,14 +339,19 @@ func run(c Case) *hx.Outcome {
 	return o
 }
 
-func TestProp(t *testing.T)    { prop.Check(t) }
-func TestRegress(t *testing.T) { prop.Regress(t) }
+func TestProp(t *testing.T)    { prop.Check(t); propKill.Check(t) }
+func TestRegress(t *testing.T) { prop.Regress(t); propKill.Regress(t) }
 func TestReplay(t *testing.T) {
 	if *hx.ReplayPath == "" {
 		t.Skip("no -replay")
 	}
-	if !prop.Replay(t, *hx.ReplayPath) {
+	if !prop.Replay(t, *hx.ReplayPath) && !propKill.Replay(t, *hx.ReplayPath) {
 		t.Fatalf("no prop matches %s", *hx.ReplayPath)
 	}
 }
-func TestMain(m *testing.M) { hx.Main(m) }
+func TestMain(m *testing.M) {
+	if spec := os.Getenv("VERIF_C11_CHILD"); spec != "" {
+		runChild(spec) // the traced child of the 'kill' sub-check: one store operation, then exit
+	}
+	hx.Main(m)
+}
